@@ -16,7 +16,7 @@ Theorem c02_unacked_perfect_link :
   pr_names p = Some (sn, dn) -> sn <> [] -> dn <> [] -> pr_msgs p = None ->
   (match pr_mode p with Some m => m | None => r_mode rs end) = UNACKED ->
   (match pr_closure p with Some b => b | None => r_closure rs end) = false ->
-  (bits = 8 \/ bits = 16 \/ bits = 32) -> 0 <= seq0 < 2 ^ bits -> 1 <= seg ->
+  (bits = 8 \/ bits = 16 \/ bits = 32) -> 0 <= seq0 < 2 ^ bits -> 1 <= seg -> 6 <= derived ->
   (r_cktype rs = CK_CRC32 \/ r_cktype rs = CK_CRC32C \/ r_cktype rs = CK_NULL \/ r_cktype rs = CK_MODULAR) ->
   bytes_ok data = true ->
   (* receiver side: entity cd is the addressed entity and knows the sender; the destination path is a fresh file name
